@@ -222,3 +222,67 @@ func TestVerifC15Pipe(t *testing.T) {
 	}
 	out.Close("C02.Check", "")
 }
+
+// TestVerifC06Pipe: third part of the C06 check - what the data plane does with a reference that no ReferenceGrant permits.
+// Generated states whose backendRefs point into other namespaces under grants of which about half are then removed, narrowed
+// to another referrer namespace, another kind or another Service name; through the real pipeline; requests aimed at the rules.
+// Evaluated by C02.Check: a backend whose reference is not permitted keeps its share of the rule and that share is answered
+// with 500 (upstream invalid-backend-ref), a permitted one is proxied.
+func TestVerifC06Pipe(t *testing.T) {
+	out := vu.Open("C06")
+	out.ShardLen(20)
+	rng := vu.NewRng(out.Seed ^ 0xC06C)
+	n := out.Count(80, 2000)
+	nreq := out.Count(40, 100)
+	for i := 0; i < n; i++ {
+		r := rng.Fork()
+		c := vsGen(r, (i*6)/n)
+		c01CrossNS(r, c)
+		var keep []vsGrant
+		for _, g := range c.Grants {
+			g.From = append([]vsGrantFrom(nil), g.From...)
+			g.To = append([]vsGrantTo(nil), g.To...)
+			switch r.Intn(6) {
+			case 0: // removed
+				continue
+			case 1: // names another referrer namespace
+				for k := range g.From {
+					g.From[k].NS = "nowhere"
+				}
+			case 2: // names another referrer kind
+				for k := range g.From {
+					g.From[k].Kind = map[string]string{"HTTPRoute": "GRPCRoute", "GRPCRoute": "HTTPRoute"}[g.From[k].Kind]
+				}
+			case 3: // restricted to one Service name
+				for k := range g.To {
+					g.To[k].Name = vsPtr(vsPick(r, vsSvcPool))
+				}
+			}
+			keep = append(keep, g)
+		}
+		c.Grants = keep
+		w := vpRunState(c, false)
+		files := w.Files()
+		reqs := vsGenRequests(r, c, nreq)
+		var rq []string
+		for _, q := range reqs {
+			rq = append(rq, q.Coq())
+		}
+		http := files["/etc/nginx/conf.d/http.conf"]
+		term := vu.App("Case", c.Coq(), vu.Str(http), vsMatchTableCoq(files["/etc/nginx/conf.d/matches.json"]), vu.List(rq), vsServersCoq(w))
+		cross := 0
+		for _, rt := range c.Routes {
+			for _, ru := range rt.Rules {
+				for _, b := range ru.Backends {
+					if b.NS != nil && *b.NS != rt.NS {
+						cross++
+					}
+				}
+			}
+		}
+		out.Case(term, map[string]any{"cluster": c, "requests": reqs, "http.conf": http}, cross >= 2 && len(http) > 2000, c.Coq())
+		out.Tally("cross_namespace_backends", strconv.Itoa(cross))
+		out.Tally("grants", strconv.Itoa(len(c.Grants)))
+	}
+	out.Close("C02.Check", "")
+}
